@@ -74,8 +74,9 @@ def write_evidence(ctx, level, out, nviol):
         'coverage': cov, 'assumptions': out.assumptions, 'wall_s': round(time.time() - ctx.t0, 1),
         'violations': nviol,
     }
-    os.makedirs(os.path.join(VERIF, 'evidence'), exist_ok=True)
-    path = os.path.join(VERIF, 'evidence', ctx.pid + '.json')
+    evdir = os.environ.get('N2VERIF_EVIDENCE', os.path.join(VERIF, 'evidence'))    # seed runs (tools/seedwt.sh) write elsewhere
+    os.makedirs(evdir, exist_ok=True)
+    path = os.path.join(evdir, ctx.pid + '.json')
     tmp = path + '.tmp'
     with open(tmp, 'w') as f:
         json.dump(ev, f, indent=1, default=str)
@@ -112,7 +113,7 @@ def main(argv):
     except Exception:  # noqa - machinery bug: never a pass
         out.inconclusive.append('machinery error:\n' + traceback.format_exc())
     known = known_findings(a.pid)
-    cexdir = os.path.join(VERIF, 'evidence', 'cex')
+    cexdir = os.path.join(os.environ.get('N2VERIF_EVIDENCE', os.path.join(VERIF, 'evidence')), 'cex')
     os.makedirs(cexdir, exist_ok=True)
     for fn_ in os.listdir(cexdir):
         if fn_.startswith(a.pid + '-'):
